@@ -354,6 +354,25 @@ def _write_result_batch(
     return 0
 
 
+class _RequestFramingError(OSError):
+    """pyarrow reported an I/O-class error while decoding the request's own IPC bytes.
+
+    pyarrow raises ``ArrowIOError`` (an alias of ``OSError``) rather than
+    ``ArrowInvalid`` for a bad message header or a body that stops short.
+    The subclass lets a transport whose request bytes are already in memory
+    (HTTP) tell that apart from I/O failures of later stages, such as
+    fetching an external location, while everything that handles ``OSError``
+    keeps doing so.
+    """
+
+
+def _as_framing_error(exc: OSError) -> OSError:
+    """Mark a plain ``OSError`` from the IPC decoder; leave real socket/pipe errors alone."""
+    if type(exc) is OSError:
+        return _RequestFramingError(*exc.args)
+    return exc
+
+
 def _read_request(
     reader_stream: IOBase | pa.NativeFile,
     ipc_validation: IpcValidation = IpcValidation.FULL,
@@ -402,9 +421,14 @@ def _read_request(
             does not match ``REQUEST_VERSION``.
 
     """
-    reader = ValidatedReader(ipc.open_stream(reader_stream), ipc_validation)
+    try:
+        reader = ValidatedReader(ipc.open_stream(reader_stream), ipc_validation)
+    except OSError as exc:
+        raise _as_framing_error(exc) from exc
     try:
         batch, custom_metadata = reader.read_next_batch_with_custom_metadata()
+    except OSError as exc:
+        raise _as_framing_error(exc) from exc
     except StopIteration:
         # A well-framed stream with a schema and EOS but no batch.  The stream
         # has been read to its end, so the transport is aligned for the next
@@ -421,7 +445,10 @@ def _read_request(
     # is shared across requests, so a rejected request that left bytes
     # in the IPC stream would corrupt the next request's framing and
     # tear down the worker connection.
-    _drain_stream(reader)
+    try:
+        _drain_stream(reader)
+    except OSError as exc:
+        raise _as_framing_error(exc) from exc
     _current_request_metadata.set(custom_metadata)
     # Stash the batch for access-log enrichment -- but only when the
     # transport has not already captured the raw wire bytes, which are
